@@ -94,6 +94,58 @@ def run(facts, rep, tier, ctx):
     norm_fns = [b for b in facts.bodies if b.file.endswith("impls/embedded.rs") and b.kind == "Fn" and
                 b.local_ty(0).startswith("std::result::Result<&str")]
     rep.ob("R18.3", "impls::embedded", "one normalising helper", len(norm_fns) == 1, [b.id for b in norm_fns], "")
+    # the normalising step removes exactly the leading separator: its Ok results are "" for the empty path and path[1..]
+    # otherwise — nothing that also eats trailing or repeated slashes ("/a.txt/" names nothing on a physical folder)
+    for nf in norm_fns[:1]:
+        cases = inter.ret_cases(nf)
+        shapes = []
+        okn = bool(cases)
+        for ct, _, bb in cases:
+            if inter.case_polarity(ct) == "err":
+                continue
+            v = ct
+            if v[0] == "agg" and v[2] == "Ok" and v[3]:
+                v = v[3][0][1]
+            v = norm(v)
+            for a in (v[1] if v[0] == "phi" else (v,)):
+                if a == ("str", ""):
+                    shapes.append('""')
+                elif a[0] == "arg" and a[1] == 0:
+                    # the path itself: only acceptable where it is known to be empty
+                    gs = D.guards(nf, bb)
+                    emp = any(g[0] == "bool" and g[2] is True and g[1][0] == "call" and g[1][1] in ("str::is_empty", "String::is_empty") for g in gs)
+                    shapes.append("path (empty)" if emp else "path")
+                    okn = okn and emp
+                elif a[0] == "call" and a[1] == "Index::index" and len(a[2]) == 2 and a[2][0][0] == "arg" and a[2][0][1] == 0 and \
+                        a[2][1][0] == "agg" and a[2][1][1].endswith("RangeFrom") and dict(a[2][1][3]).get("start") == ("int", 1):
+                    shapes.append("path[1..]")
+                else:
+                    shapes.append(fmt(a)[:40])
+                    okn = False
+        rep.ob("R18.3", nf.id, "the normalising step strips exactly the leading separator", okn and "path[1..]" in shapes,
+               ", ".join(shapes) if okn else
+               "the normaliser returns %s: more than the one leading '/' is removed (or something else is computed), so paths "
+               "like \"/a.txt/\" or \"//a.txt\" name an entry here but nothing on a physical folder" % ", ".join(shapes), nf.span)
+    # who may construct: the struct is only built where the index is built (a derived / second constructor would hand out an
+    # empty or partial view)
+    ctor_bodies = []
+    for b2 in facts.bodies:
+        for blk in b2.blocks:
+            if blk.cleanup:
+                continue
+            for st in blk.stmts:
+                if st.kind == "assign" and st.rv.kind == "agg" and st.rv.agg.get("adt") == "impls::embedded::EmbeddedFS":
+                    ctor_bodies.append((b2, st.line))
+    index_builders = {b2.id for b2 in facts.bodies if b2.file.endswith("impls/embedded.rs") and
+                      any(short(x.term.callee() or "") in ("RustEmbed::iter", "rust_embed::RustEmbed::iter") or
+                          (x.term.callee() or "").endswith("::iter") and "RustEmbed" in (x.term.callee() or "") for x in b2.calls())}
+    for b2, line in ctor_bodies:
+        root = facts.body(b2.root) if b2.kind == "Closure" and b2.root else b2
+        okc = root.id in index_builders or any(rb.id in index_builders for rb in inter.reachable([root], through_dyn=False).values())
+        rep.ob("R18.5", b2.id, "EmbeddedFS is constructed only by the index builder", okc, "" if okc else
+               "%s builds an EmbeddedFS value without running the index construction over the embedded files: that instance "
+               "shows an empty (or different) tree" % b2.id, line)
+    rep.floor("EmbeddedFS construction sites", len(ctor_bodies), 1)
     k = 0
     for m in ("read_dir", "open_file", "metadata", "exists"):
         b = o.get(m)
